@@ -186,6 +186,16 @@ def map_info(fd):
         struct.unpack_from("IIIII", info.raw)[2:5]
 
 
+def prog_id(fd):
+    """the kernel's id of the loaded program behind fd"""
+    import struct
+    info = ctypes.create_string_buffer(232)
+    attr = struct.pack("IIQ", fd, 232, ctypes.addressof(info))
+    attr = ctypes.create_string_buffer(attr, len(attr))
+    _syscall(15, attr)
+    return struct.unpack_from("II", info.raw)[1]
+
+
 PERCPU_TYPES = (5, 6, 10, 21)
 
 
